@@ -57,6 +57,11 @@ fn attach_alias_locations_if_missing(
     reference_location: Location,
     defined_location: Location,
 ) -> Error {
+    // A budget breach met while replaying an alias is not an error *of the aliased value*:
+    // callers match on `Error::Budget`, it is not turned into text.
+    if matches!(err.without_snippet(), Error::Budget { .. }) {
+        return err;
+    }
     // If both locations are known and different, create an AliasError to show both.
     // This applies even if the error already has a location (from replayed anchor events),
     // because we want to show where the alias was used, not just where the anchor was defined.
